@@ -331,7 +331,7 @@ def roundtrip(obj, version, key, feat, part, case, options):
             back2 = stix2.parse(text2, allow_custom=back.has_custom)
             if back2.serialize(**o) != text2:
                 part.violation("C01/not-fixpoint/%s" % feat, "the round trip is not a fixed point after the second iteration", c, text2[:200], back2.serialize(**o)[:200])
-        if o.get("pretty") and not o.get("sort_keys"):
+        if o.get("pretty"):       # (pretty wins over sort_keys: specification order either way)
             order = top_order(text)
             spec_order = model.spec(version).classes[key]["order"] if key in model.spec(version).classes else list(type(obj)._properties) if key is None else []
             known = [k for k in order if k in spec_order]
